@@ -17,7 +17,7 @@ ASSUMPTIONS = ["jobs terminate", "Go scheduler is fair"]
 
 
 def correspond(ctx):
-    rc, out = C.go_test("./internal/utils/wpool", "TestVerifC16", {"VERIF_OUT": ctx.rd, "VERIF_SEED": ctx.seed, "VERIF_TIER": ctx.tier}, timeout=3000)
+    rc, out = C.go_test("./internal/utils/wpool", "TestVerifC16", {"VERIF_OUT": ctx.rd, "VERIF_SEED": ctx.seed, "VERIF_TIER": ctx.tier}, timeout=3000 if ctx.thorough else 600)
     p = os.path.join(ctx.rd, "c16.runs.jsonl")
     runs = [json.loads(l) for l in open(p) if l.strip()] if os.path.exists(p) else []
     violations, seen = [], set()
